@@ -17,6 +17,8 @@ import (
 	"os"
 	"sync"
 
+	"k8s.io/klog/v2"
+
 	"verif/harness/fam/deps"
 )
 
@@ -90,6 +92,8 @@ func main() {
 	// helm warns through slog / log on many of the enumerated inputs
 	slog.SetDefault(slog.New(slog.NewTextHandler(io.Discard, nil)))
 	log.SetOutput(io.Discard)
+	klog.SetOutput(io.Discard)
+	klog.LogToStderr(false)
 	if len(os.Args) < 2 {
 		die("usage: hv_deps c11|c14|show ...")
 	}
